@@ -75,10 +75,10 @@ type env struct {
 
 type letter struct {
 	name  string
-	probe bool                           // still played after a connection error
+	probe bool                                // still played after a connection error
 	build func(x *env) (wire []byte, ok bool) // ok=false: not enabled in this state
-	can   func(x *env) bool              // optional: enabledness without building the frame
-	rel   bool                           // environment action: let the oldest held handler return
+	can   func(x *env) bool                   // optional: enabledness without building the frame
+	rel   bool                                // environment action: let the oldest held handler return
 }
 
 func hdr(id uint32, block []byte, es, eh bool, prio *h2wire.Prio, pad int) []byte {
@@ -232,13 +232,17 @@ func alphabet() []letter {
 		always("P_ZERO", func(x *env) []byte { return h2wire.Priority(0, h2wire.Prio{Dep: 1, Weight: 3}) }),
 		// -- SETTINGS
 		always("S_EMPTY", func(x *env) []byte { return h2wire.Settings() }),
-		always("S_IWS_MAX", func(x *env) []byte { return h2wire.Settings(h2wire.Setting{ID: 4, Val: 1<<31 - 1}, h2wire.Setting{ID: 0x99, Val: 1}) }),
+		always("S_IWS_MAX", func(x *env) []byte {
+			return h2wire.Settings(h2wire.Setting{ID: 4, Val: 1<<31 - 1}, h2wire.Setting{ID: 0x99, Val: 1})
+		}),
 		always("S_ACK", func(x *env) []byte { return h2wire.SettingsAck() }),
 		always("S_ON_STREAM", func(x *env) []byte { return h2wire.Append(nil, h2wire.TSettings, 0, 1, nil) }),
 		always("S_LEN5", func(x *env) []byte { return h2wire.Append(nil, h2wire.TSettings, 0, 0, []byte{0, 3, 0, 0, 0}) }),
 		always("S_BAD_PUSH", func(x *env) []byte { return h2wire.Settings(h2wire.Setting{ID: 2, Val: 2}) }),
 		always("S_IWS_TOO_BIG", func(x *env) []byte { return h2wire.Settings(h2wire.Setting{ID: 4, Val: 1 << 31}) }),
-		always("S_ACK_PAYLOAD", func(x *env) []byte { return h2wire.Append(nil, h2wire.TSettings, h2wire.FAck, 0, []byte{0, 3, 0, 0, 0, 1}) }),
+		always("S_ACK_PAYLOAD", func(x *env) []byte {
+			return h2wire.Append(nil, h2wire.TSettings, h2wire.FAck, 0, []byte{0, 3, 0, 0, 0, 1})
+		}),
 		// -- PING
 		{name: "PING", probe: true, build: func(x *env) ([]byte, bool) { return h2wire.Ping(false, [8]byte{1, 2, 3}), true }},
 		always("PING_ACK", func(x *env) []byte { return h2wire.Ping(true, [8]byte{9}) }),
@@ -295,16 +299,22 @@ type stepRec struct {
 type result struct {
 	steps []stepRec
 	viols []h2sm.Violation
-	keys  []string // reference state after each explored step
-	feats []string // coverage signature of each non-trivial step
-	next  []string // letters enabled after the last explored step
+	keys  []string       // reference state after each explored step
+	feats []string       // coverage signature of each non-trivial step
+	next  []string       // letters enabled after the last explored step
 	at    map[string]int // violation signature -> number of explored letters played when it arose
 }
 
 var (
 	wantCensus = false // set while a violation is being confirmed
-	alpha     = alphabet()
-	alphaIdx  = func() map[string]int { m := map[string]int{}; for i, l := range alpha { m[l.name] = i }; return m }()
+	alpha      = alphabet()
+	alphaIdx   = func() map[string]int {
+		m := map[string]int{}
+		for i, l := range alpha {
+			m[l.name] = i
+		}
+		return m
+	}()
 	stopLabel = "-"
 )
 
@@ -633,7 +643,9 @@ var coreLetters = []string{"H_NEW_ES_NOW", "H_NEW_ES_HOLD", "H_NEW_HOLD", "H_NEW
 	"H_NEW_UPPER", "H_NEW_CONNHDR", "D_OPEN", "D_OPEN_ES", "D_HALFCLOSED", "D_CLOSED", "R_OPEN", "R_HALFCLOSED", "R_CLOSED", "W_OPEN", "W_CLOSED", "P_SELF", "S_ACK", "GOAWAY", "RELEASE"}
 
 func plan() []phase {
-	afterSettings := func(n int) config { return config{name: fmt.Sprintf("max%d", n), maxStreams: n, prefix: []string{"S_EMPTY"}} }
+	afterSettings := func(n int) config {
+		return config{name: fmt.Sprintf("max%d", n), maxStreams: n, prefix: []string{"S_EMPTY"}}
+	}
 	core := func(n int) config {
 		c := afterSettings(n)
 		c.name += "/core"
@@ -951,7 +963,6 @@ func journal(format string, a ...any) {
 	}
 	journalFile.WriteAt([]byte(fmt.Sprintf("%-255s\n", line)), 0)
 }
-
 
 // TestOne plays one history given as C13_HISTORY="<maxStreams>:LETTER,LETTER,..." and prints it (debugging aid).
 func TestOne(t *testing.T) {
